@@ -687,6 +687,7 @@ def setup():
     build_harness("dev")
     pool_file()
     table_file()
+    hiw_file()
 
     def job(args):
         name, mod, cfg, to = args
